@@ -118,8 +118,9 @@ theorem matrix_power_arguments_known :
     (∀ r ∈ returns, r.2.1 = "RFM" → r.2.2.1 = "fit_M" → r.2.2.2 = Prov.fresh) := by
   decide
 
-/-- Non-vacuity of (2): the inventory is not empty and does contain kernel arithmetic. -/
-example : ("kernels.py", "LaplaceKernel._get_kernel_matrix_impl", "kernel_mat.exp_", Prov.fresh) ∈ sites := by
+/-- Non-vacuity of (2): the inventory is not empty and does contain kernel arithmetic (in-place operations on fresh
+tensors in `kernels.py`, wherever a refactoring may have put them). -/
+example : (sites.any fun s => s.1 == "kernels.py" && s.2.2.2 == Prov.fresh) = true ∧ 40 ≤ sites.length := by
   decide
 
 end Xrfmv.Props.C18
